@@ -1,6 +1,6 @@
-/- C16 — second invariant: the canonical form of a step-boundary state whose receive loop is still running
-(no asynchronous on_message ever started), and the unfolding lemmas used by the per-event case analyses. -/
-import TornadoModel.C16.Inv2
+/- C16 — second invariant: the receive loop reads one inbound frame (`handleIn`) while the transport is up and no
+on_message is in flight; unfolding lemmas for `pumpQ`. -/
+import TornadoModel.C16.Inv2B1
 namespace TornadoModel.C16
 open Spec
 
@@ -18,23 +18,44 @@ theorem pumpQ_cons (cfg : Cfg) (i : In) (q : List In) (s : St) : pumpQ cfg (i ::
     else pumpQ cfg q (handleIn i s) := by
   rw [pumpQ]
 
-/-- a step-boundary state with the receive loop running and nothing ever blocked: transport up, nothing
-received, nothing queued -/
-def openSt (hconn st waiting : Bool) (ping : Ping) (gotPong : Bool) (log : List Ev) : St :=
-  { hconn := hconn, onCloseCalled := false, ct := false, st := st, waiting := waiting, sopen := true,
-    code := none, reason := none, ping := ping, gotPong := gotPong, blocked := false, loopDone := false,
-    inq := [], peerGone := false, log := log }
+/-- a message is handed to on_message -/
+theorem link_handleIn_data {q : List In} {s : St} (a : Bool) (h : Link (.data a :: q) s)
+    (hso : s.sopen = true) (hct : s.ct = false) (hb : s.blocked = false) : Link q (handleIn (.data a) s) := by
+  obtain ⟨p1, p2, p3, p4, p5⟩ := h.live hso
+  obtain ⟨h1, h2, h3, _, _, g1, g2, g3, g4, g5⟩ := h
+  have p1' : (obs s.log).pend = .msg a :: proj q := p1
+  have hn3 := noEof_tail h3
+  rcases s with ⟨hconn, occ, ct, st, waiting, sopen, code, reason, ping, gotPong, blocked, loopDone, inq, peerGone, log⟩
+  simp only at hso hct hb p1' p2 p3 p4 p5 h1 h2 hn3 g1 g2 g3 g4 g5
+  subst hso hct hb
+  cases a <;>
+    (constructor <;>
+      first
+      | exact hn3
+      | (simp [handleIn, emit, Obs.upd, p1', p2, p3, p4, h1, h2, forallH, echoesPeerCode, bothClosedSendsClose,
+          teardownBothClosed, notifyCarriesPeerClose, notifyWhenDownB, isOp, isClose, g1, g2, g3, g4, g5]; done)
+      | simpa [handleIn, emit, Obs.upd, p1', p2, p3, p4, h1, h2, isClose] using p5)
 
-/-- what is known about the history of such a state -/
-structure OpenLog (st : Bool) (log : List Ev) : Prop where
-  nb : neverBlocked log = true
-  peer : peerOf log = .undecided
-  noDown : log.any isStreamClosed = false
-  noNotify : log.any isNotify = false
-  stClose : st = true → log.any isClose = true
-  g1 : forallH echoesPeerCode log = true
-  g2 : forallH bothClosedSendsClose log = true
-  g3 : forallH teardownBothClosed log = true
-  g4 : forallH notifyCarriesPeerClose log = true
+theorem link_handleIn {q : List In} {s : St} (i : In) (h : Link (i :: q) s) (hso : s.sopen = true)
+    (hct : s.ct = false) (hb : s.blocked = false) : Link q (handleIn i s) := by
+  cases i with
+  | close p ok => exact link_handleIn_close p ok h hso hct hb
+  | data a => exact link_handleIn_data a h hso hct hb
+  | eof =>
+    have hd := link_emit_down h hso (Or.inr rfl)
+    have he : handleIn .eof s = { emit .streamClosed s with sopen := false } := by
+      simp [handleIn, closeStream, hso, emit]
+    rw [he]
+    exact link_requeue hd (fun hx => absurd hx (by simp)) (noEof_tail h.noEof)
+  | pong =>
+    have he : handleIn .pong s = emit .onPong { s with gotPong := true } := by simp [handleIn, hct]
+    rw [he]
+    have h0 : Link q s := link_requeue h (fun _ => rfl) (noEof_tail h.noEof)
+    exact link_emit_inert _ rfl (link_frame h0 rfl rfl rfl rfl rfl (fun _ => rfl) rfl)
+  | ping p =>
+    have he : handleIn (.ping p) s = emit .onPing (emit (.pongFrame p) s) := by simp [handleIn, hct]
+    rw [he]
+    have h0 : Link q s := link_requeue h (fun _ => rfl) (noEof_tail h.noEof)
+    exact link_emit_inert _ rfl (link_emit_inert _ rfl h0)
 
 end TornadoModel.C16
